@@ -20,7 +20,7 @@ theorem runTree_eq_runFrom (t : Tracker) (e : Evs) : runTree t e = runFrom t (fl
     | ok t' =>
       simp only [ihs t', runFrom_append]
       cases hs : (runFrom t' (flatten sub)).status with
-      | outOfFuel => simp
+      | outOfFuel => simp [hs]
       | done => simp [ihr]
 
 /-- the flat machine: the limited run is determined by the unlimited run and the trace-level model -/
@@ -60,8 +60,7 @@ theorem Machine.runFuel_of_run {S E : Type} (m : Machine S E) (n : Nat) (t : Tra
           cases ht : t.track (costOf i) with
           | outOfFuel t' => simp [runFrom, ht, limitedResult]
           | ok t' =>
-            simp only [ih t' s' r hr]
-            simp [runFrom, ht]
+            simp [runFrom, ht, ih t' s' r hr]
 
 /-- the machine with nested activations: the limited run is determined by the call tree of the
     unlimited run and the tree-level model -/
@@ -102,8 +101,7 @@ theorem NMachine.runFuel_of_run {S E : Type} (m : NMachine S E) (n : Nat) (t : T
             cases ht : t.track (costOf i) with
             | outOfFuel t' => simp [runTree, ht, limitedResult]
             | ok t' =>
-              simp only [ih t' s' r hr]
-              simp [runTree, ht]
+              simp [runTree, ht, ih t' s' r hr]
       | call entry resume =>
         simp only [he] at h
         cases hsub : m.run n entry with
@@ -126,14 +124,13 @@ theorem NMachine.runFuel_of_run {S E : Type} (m : NMachine S E) (n : Nat) (t : T
                 cases h
                 simp [runTree, ht, limitedResult]
           | ok t' =>
-            simp only [ih t' entry sub hsub]
             cases hres : sub.result with
             | error e =>
               simp only [hres] at h
               cases h
               cases hst : (runTree t' sub.tree).status with
-              | outOfFuel => simp [runTree, ht, hst, limitedResult]
-              | done => simp [runTree, ht, hst, limitedResult]
+              | outOfFuel => simp [runTree, ht, hst, limitedResult, ih t' entry sub hsub]
+              | done => simp [runTree, ht, hst, limitedResult, ih t' entry sub hsub, hres]
             | ok s2 =>
               simp only [hres] at h
               cases hr : m.run n (resume s2) with
@@ -142,11 +139,10 @@ theorem NMachine.runFuel_of_run {S E : Type} (m : NMachine S E) (n : Nat) (t : T
                 simp only [hr] at h
                 cases h
                 cases hst : (runTree t' sub.tree).status with
-                | outOfFuel => simp [runTree, ht, hst, limitedResult]
+                | outOfFuel => simp [runTree, ht, hst, limitedResult, ih t' entry sub hsub]
                 | done =>
-                  simp only [limitedResult]
-                  simp only [ih (runTree t' sub.tree).tracker (resume s2) r hr]
-                  simp [runTree, ht, hst]
+                  simp [runTree, ht, hst, limitedResult, ih t' entry sub hsub, hres,
+                    ih (runTree t' sub.tree).tracker (resume s2) r hr]
 
 /-! ## stickiness -/
 
@@ -188,5 +184,30 @@ theorem runFrom_oof_remaining (t : Tracker) (trace : List String) (h : (runFrom 
     | ok t' =>
       simp only [ht] at h
       simpa using ih t' h
+
+end MJ.Fuel
+
+namespace MJ.Fuel
+
+theorem Machine.run_states_length {S E : Type} (m : Machine S E) (n : Nat) (s : S) (u : URun S E)
+    (h : m.run n s = some u) : u.states.length = u.trace.length := by
+  induction n generalizing s u with
+  | zero => simp [Machine.run] at h
+  | succ n ih =>
+    simp only [Machine.run] at h
+    cases hf : m.fetch s with
+    | none => simp only [hf] at h; cases h; rfl
+    | some i =>
+      simp only [hf] at h
+      cases he : m.exec s with
+      | error e => simp only [he] at h; cases h; rfl
+      | ok s' =>
+        simp only [he] at h
+        cases hr : m.run n s' with
+        | none => simp [hr] at h
+        | some r =>
+          simp only [hr] at h
+          cases h
+          simp [ih s' r hr]
 
 end MJ.Fuel
